@@ -65,3 +65,22 @@ PROPS["C17"] = {
                    + ["k_law_" + m for m in ALL_MODES],
     "explanation": "",
 }
+
+# ---------------------------------------------------------------- Engine X (bounded-exec)
+X("x_roundtrip_structure", "encode(model) loads and every public attribute equals the model (all entities, file order, lookups, user data)",
+  ["parse::read_aseprite", "parse::parse_frame", "parse::Chunk::read", "file::AsepriteFile accessors"], mod="x_structure",
+  bound="seeded random models (600 quick / 6000 thorough)")
+X("x_header_extremes", "frame counts up to 65535, extreme canvas sizes and durations are reported exactly",
+  ["parse::read_aseprite", "parse::ParseInfo::new", "cel::CelsData::new"], mod="x_structure", bound="20 header shapes")
+X("x_routes", "frame.layer / layer.frame / cel(frame,layer) agree; single-visible-cel frame == cel image; tilemap image == cel image",
+  ["file::AsepriteFile::cel", "file::Frame::layer", "layer::Layer::frame", "cel::Cel::*", "tilemap::Tilemap::image"], mod="x_structure",
+  bound="seeded random models with frames != layers (200 / 2000)")
+X("x_frames_vs_spec", "Frame::image and Cel::image equal the composition spec computed from the model with the Aseprite blend reference; parents/visibility equal the forest spec",
+  ["file::AsepriteFile::frame_image", "file::AsepriteFile::write_cel", "file::write_raw_cel_to_image", "file::write_tilemap_cel_to_image",
+   "cel::CelsData::frame_cels", "layer::Layer::is_visible", "pixel::Pixels::clone_as_image_rgba"], mod="x_render",
+  bound="seeded random stacks (500 / 6000)")
+X("x_cel_order_irrelevant", "every permutation of the cel chunks of a frame gives the same image", ["cel::CelsData::add_cel", "cel::CelsData::frame_cels"],
+  mod="x_render", bound="all permutations of <=4 cels on 40 / 400 seeded stacks")
+X("x_forest_exhaustive", "parent(), is_visible() and frame images follow the nesting levels for EVERY forest of up to 6 (quick) / 8 (thorough) layers and every flag assignment",
+  ["layer::Layer::parent", "layer::Layer::is_visible", "file::AsepriteFile::frame_image"], mod="x_render", bound="exhaustive <= 6 / 8 layers")
+PROPS["CX"] = {"level": "exploration", "obligations": ["x_roundtrip_structure", "x_header_extremes", "x_routes", "x_frames_vs_spec", "x_cel_order_irrelevant", "x_forest_exhaustive"]}
